@@ -65,6 +65,11 @@ func (c *clientApp) setDefaults() (err error) {
 	if c.tls, err = getTLSConf(c.conf.Target); err != nil {
 		return
 	}
+	if c.conf.Threads < 1 {
+		// No workers means no sender, no retrier and nobody to hash the scanned
+		// files: the first scan would wait on them for ever
+		c.conf.Threads = 1
+	}
 	if c.conf.BinSize == 0 {
 		c.conf.BinSize = 10 * 1024 * 1024 * 1024
 	}
